@@ -192,6 +192,26 @@ pub fn run(ctx: &mut crate::Ctx) {
               let mut q = Query::select(); q.column(id(&a.a)).from(id(&a.t)); q.with(WithClause::new().cte(CommonTableExpression::from_select(base)).to_owned()) },
             { let base = { let mut s = Query::select(); s.column(id(&a.a)).column(id(&a.b)).from(id(&a.t)); s };
               let mut q = Query::select(); q.column(id(&a.a)).from(id(&a.t)); q.with(WithClause::new().cte(CommonTableExpression::new().query(base).columns([id(&a.a), id(&a.b)]).table_name(id(&format!("cte_{}", a.t))).to_owned()).to_owned()) });
+        // ---- take() as the finisher returns the whole statement (dialect extension clauses included)
+        {
+            use sea_query::extension::mysql::{IndexHintScope, MySqlSelectStatementExt};
+            use sea_query::extension::postgres::{PostgresSelectStatementExt, SampleMethod};
+            let loaded = || { let mut s = sel(&a); s.distinct().and_where(a.e1.clone()).group_by_col(id(&a.b)).and_having(a.e2.clone()).order_by(id(&a.a), Order::Desc).limit(a.n + 1).offset(a.n)
+                .lock_with_tables(LockType::Share, [id(&a.t)]).use_index(id("ix"), IndexHintScope::All).force_index(id("iy"), IndexHintScope::Join).table_sample(SampleMethod::SYSTEM, 12.5, Some(3.0))
+                .left_join(id(&a.u), Expr::col((id(&a.u), id(&a.a))).equals((id(&a.t), id(&a.a)))).union(UnionType::All, sub(&a));
+                s.with_cte(CommonTableExpression::new().query(sub(&a)).table_name(id("cte")).to_owned()); s };
+            pair!("select.take", { let mut s = loaded(); s.take() }, loaded());
+            pair!("select.take leaves a new statement", { let mut s = loaded(); let _ = s.take(); s }, SelectStatement::new());
+            pair!("select.take then rebuild", { let mut s = loaded(); let _ = s.take(); s.column(id(&a.a)).from(id(&a.t)); s }, sel(&a));
+        }
+        // ---- an empty row is a no-op, also next to the default-row request
+        pair!("insert.values(empty) after or_default_values", { let mut i = Query::insert(); i.into_table(id(&a.t)).or_default_values().values_panic(Vec::<SimpleExpr>::new()); i }, { let mut i = Query::insert(); i.into_table(id(&a.t)).or_default_values(); i });
+        pair!("insert.values(empty) before or_default_values", { let mut i = Query::insert(); i.into_table(id(&a.t)).columns(Vec::<Alias>::new()).values_panic(Vec::<SimpleExpr>::new()).or_default_values(); i }, { let mut i = Query::insert(); i.into_table(id(&a.t)).or_default_values(); i });
+        // ---- a CTE taken from a SELECT names its columns only when EVERY select item has a name
+        pair!("CommonTableExpression::from_select (an unnamed item)", { let base = { let mut s = Query::select(); s.column(id(&a.a)).expr(Func::count(Expr::col(id(&a.b)))).from(id(&a.t)); s };
+              let mut q = Query::select(); q.column(Asterisk).from(id(&format!("cte_{}", a.t))); q.with(WithClause::new().cte(CommonTableExpression::from_select(base)).to_owned()) },
+            { let base = { let mut s = Query::select(); s.column(id(&a.a)).expr(Func::count(Expr::col(id(&a.b)))).from(id(&a.t)); s };
+              let mut q = Query::select(); q.column(Asterisk).from(id(&format!("cte_{}", a.t))); q.with(WithClause::new().cte(CommonTableExpression::new().query(base).table_name(id(&format!("cte_{}", a.t))).to_owned()).to_owned()) });
         // ---- ON CONFLICT: every where-adding method of target and action against the general form, with the other side set too
         {
             let ins = |oc: OnConflict| { let mut i = Query::insert(); i.into_table(id(&a.t)).columns([id(&a.a), id(&a.b)]).values_panic([a.e1.clone(), a.e2.clone()]).on_conflict(oc); i };
